@@ -763,6 +763,11 @@ class _ClassBuilder:
         """
         script = "\n".join([snippet[0] for snippet in self._script_snippets])
         globs = {}
+        if self._cls.__module__ in sys.modules:
+            # This makes typing.get_type_hints(CLS.__init__) resolve string
+            # types.  It goes first, such that names from the module can never
+            # shadow the helpers our generated methods rely on.
+            globs.update(sys.modules[self._cls.__module__].__dict__)
         for _, snippet_globs, _ in self._script_snippets:
             globs.update(snippet_globs)
 
@@ -1565,8 +1570,10 @@ def _make_hash_script(
     tab = "        "
 
     type_hash = hash(_generate_unique_filename(cls, "hash"))
-    # If eq is custom generated, we need to include the functions in globs
-    globs = {}
+    # If eq is custom generated, we need to include the functions in globs.
+    # The builtins we use are passed explicitly, such that same-named globals
+    # of the class's module can't shadow them.
+    globs = {"hash": hash, "object": object, "__import__": __import__}
 
     hash_def = "def __hash__(self"
     hash_func = "hash(("
@@ -1781,6 +1788,8 @@ def _make_repr_script(attrs, ns) -> tuple[str, dict]:
     globs["_compat"] = _compat
     globs["AttributeError"] = AttributeError
     globs["NOTHING"] = NOTHING
+    globs["id"] = id
+    globs["getattr"] = getattr
     attribute_fragments = []
     for name, r, i in attr_names_with_reprs:
         accessor = (
@@ -1991,11 +2000,9 @@ def _make_init_script(
         has_cls_on_setattr,
         "__attrs_init__" if attrs_init else "__init__",
     )
-    if cls.__module__ in sys.modules:
-        # This makes typing.get_type_hints(CLS.__init__) resolve string types.
-        globs.update(sys.modules[cls.__module__].__dict__)
-
     globs.update({"NOTHING": NOTHING, "attr_dict": attr_dict})
+    if is_exc:
+        globs["BaseException"] = BaseException
 
     if needs_cached_setattr:
         # Save the lookup overhead in __init__ if we need to circumvent
